@@ -23,8 +23,22 @@ JudgeP(e, facts) ==
     ELSE {<<IF counts # {} THEN "DescriptorsWithinLength" ELSE "DecodedValue",
             ToJson([paths |-> {f[1] : f \in bad}, expected |-> {<<f[1], f[3]>> : f \in {g \in bad : TRUE}}])>>}
 
+\* data-out lists (C05): [ev |-> "Marshal", fmt, in (the caller's values, flattened), bytes (cmd.dataout), exc]
+\* every fact read off the bytes must be the caller's value (absent optional values read as zero / empty)
+WrongIn(f, inp) ==
+    IF f[1] \in DOMAIN inp
+    THEN (f[2] = "n" /\ ~NumEq(inp[f[1]], f[3])) \/ (f[2] = "b" /\ inp[f[1]] # f[3])
+    ELSE (f[2] = "n" /\ Strip(f[3]) # <<>>) \/ (f[2] = "b" /\ f[3] # <<>> /\ \E i \in 1..Len(f[3]) : f[3][i] # 0)
+JudgeOut(e) ==
+    IF e.fmt \notin OutFormats THEN {<<"UnknownFormat", e.fmt>>}
+    ELSE IF e.exc # "" THEN {<<"Constructible", e.exc>>}
+    ELSE (IF ~Exact(e.fmt, e.bytes) THEN {<<"HonestLengths", "">>} ELSE {})
+         \cup LET bad == {f \in ParseOut(e.fmt, e.bytes) : WrongIn(f, e.in)} IN
+              IF bad = {} THEN {} ELSE {<<"ValuePlacement", ToJson([paths |-> {f[1] : f \in bad}])>>}
+
 Judge(e) ==
-    IF e.fmt \notin Formats THEN {<<"UnknownFormat", e.fmt>>}
+    IF e.ev = "Marshal" THEN JudgeOut(e)
+    ELSE IF e.fmt \notin Formats THEN {<<"UnknownFormat", e.fmt>>}
     ELSE IF ~Okay(e.fmt, e.bytes) THEN {<<"Unjudged", "not well-formed">>}
     ELSE IF e.exc # "" THEN {<<"DecodesWithoutError", e.exc>>}
     ELSE JudgeP(e, Parse(e.fmt, e.bytes))
